@@ -855,6 +855,7 @@ type Engine struct {
 	heapSorts map[string]string
 	outDir    string
 	smtDir    string // this run's query files
+	noRetry   map[string]bool // obligations recorded as known findings: a timeout there is the expected answer
 	timeoutS  int
 	seed      int
 	tier      string
